@@ -107,7 +107,10 @@ func searchCorpus(r *rand.Rand, i int) searchRoot {
 		return searchRoot{gen.Playout(r, starts[r.Intn(len(starts))], r.Intn(30), gen.Biases[r.Intn(len(gen.Biases))]), "middlegame"}
 	case 5:
 		return searchRoot{gen.Playout(r, gen.SynthOK(r), r.Intn(6), gen.Neutral), "synthetic"}
-	case 6: // promotion races
+	case 6: // promotion races; stalemate as a saving resource
+		if r.Intn(2) == 0 {
+			return searchRoot{gen.Hist{Start: gen.TacticOK(r, 11)}, "stalemate-resource"}
+		}
 		return searchRoot{gen.Playout(r, gen.TacticOK(r, 6), r.Intn(4), gen.Tactical), "promotion"}
 	case 7:
 		if r.Intn(2) == 0 {
